@@ -252,15 +252,15 @@ class Decoder(object):
                 elif op == 'freeze':
                     t = p.type(); code.append((H['copy'], res, opnd(t, p.value(t))))
                 elif op == 'load':
-                    p.accept('atomic'); p.accept('volatile')
+                    vol = p.accept('atomic'); vol = p.accept('volatile') or vol
                     t = p.type(); p.expect(','); pt = p.type(); pv = p.value(pt)
                     cls = s.tclass(t)
-                    code.append((H['load'], res, opnd(pt, pv), cls[0], cls[1], cls[2]))
+                    code.append((H['vload' if vol else 'load'], res, opnd(pt, pv), cls[0], cls[1], cls[2]))
                 elif op == 'store':
-                    p.accept('atomic'); p.accept('volatile')
+                    vol = p.accept('atomic'); vol = p.accept('volatile') or vol
                     t = p.type(); v = p.value(t); p.expect(','); pt = p.type(); pv = p.value(pt)
                     cls = s.tclass(t)
-                    code.append((H['store'], None, opnd(pt, pv), opnd(t, v), cls[0], cls[1], cls[2]))
+                    code.append((H['vstore' if vol else 'store'], None, opnd(pt, pv), opnd(t, v), cls[0], cls[1], cls[2]))
                 elif op == 'getelementptr':
                     p.accept('inbounds')
                     bt = p.type(); p.expect(','); pt = p.type(); pv = p.value(pt)
